@@ -70,6 +70,8 @@ class BaseIncrementalFeatureImportance(BaseIncrementalExplainer):
         super().__init__(model_function, feature_names)
         self._loss_function = validate_loss_function(loss_function)
 
+        if isinstance(smoothing_alpha, np.generic):  # a NumPy scalar would force counters and estimates into its type
+            smoothing_alpha = smoothing_alpha.item()
         self._smoothing_alpha = 0.001 if smoothing_alpha is None else smoothing_alpha
         if dynamic_setting:
             assert 0. < self._smoothing_alpha <= 1., f"The smoothing parameter needs to be in the range" \
